@@ -129,6 +129,12 @@ def callSiteMonitor (r : Report) (sec line : Nat) (allow : Bool) (obs : List Str
     r := r.violation sec line s!"Allow was called {kvNat obs "allows" 99} times for one request"
   return r
 
+/-- `nil` / `nop` / the threshold of an adaptive shedder: how the engine harness describes a shedder. -/
+def describeShedder : Option GoZero.C02.AnyShedder → String
+  | none => "nil"
+  | some .nop => "nop"
+  | some (.adaptive s) => s!"{s.cpuThreshold}"
+
 def stripSt (obs : List String) : List String := obs.filter fun t => !t.startsWith "st="
 
 def runSection (r : Report) (s : Section) : Report := Id.run do
@@ -166,6 +172,21 @@ def runSection (r : Report) (s : Section) : Report := Id.run do
         if fails then r := r.addCover "real-http-fail"
         let (r', sh') := realOp r s.idx l.idx sh depth fails l.obs
         r := r'; sh := sh'
+    | "engine" :: args =>
+      match (kv? args "thr").bind String.toInt?, (kv? args "dis").bind String.toNat? with
+      | some thr, some dis =>
+        let e := GoZero.C02.newEngine (dis = 0) thr 1
+        let model := s!"main={describeShedder e.shedder} pri={describeShedder e.priority} get0={describeShedder (e.getShedder false)} get1={describeShedder (e.getShedder true)}"
+        r := r.addCover (if thr ≤ 0 then "engine-shedding-off" else if dis = 1 then "engine-disabled-nop" else
+                          if thr ≥ 999 then "engine-threshold-at-or-above-999" else "engine-two-shedders")
+        if joinSp l.obs ≠ model then
+          r := r.mismatch s.idx l.idx model (joinSp l.obs)
+          -- monitor (clauses 1, 2 and 4 at the configuration): the route's shedder has the configured threshold
+          for p in [false, true] do
+            let key := if p then "get1" else "get0"
+            if kvStr l.obs key ≠ describeShedder (e.getShedder p) then
+              r := r.violation s.idx l.idx s!"engine built with CpuThreshold={thr} (load shedding {if dis = 1 then "disabled" else "enabled"}) hands a {if p then "priority" else "normal"} route the shedder {kvStr l.obs key}, the configuration demands {describeShedder (e.getShedder p)} (nil: none, nop: never sheds, n: sheds at a CPU reading of n or more)"
+      | _, _ => r := r.mismatch s.idx l.idx "bad-op" (joinSp l.op)
     | "req" :: args =>
       match (kv? args "allow").bind String.toNat?, (kv? args "code").bind String.toNat?, (kv? args "panic").bind parseEnd with
       | some allow, some code, some en =>
